@@ -524,9 +524,12 @@ def run_check(prop, title, families, tier, meta):
     print("%s %s: tasks=%d paths=%d obligations=%d discharged=%d sat=%d inconclusive=%d unknown=%d solver=%.1fs wall=%.1fs"
           % (prop, tier, len(tasks), total.paths, total.obligations, total.discharged, total.sat, total.inconclusive,
              total.unknown, total.solver_s, wall))
+    vacuous = [f for f, fs in fam_summary.items() if fs["obligations"] == 0]
+    for f in vacuous:
+        print("HARNESS-ERROR property=%s family=%s: no obligation was reached (vacuous family)" % (prop, f))
     if violations:
         return 1
-    if errors or unreplayed or tv_problems:
+    if errors or unreplayed or tv_problems or vacuous:
         return 2
     if total.obligations == 0:
         print("HARNESS-ERROR property=%s: no obligation was reached (vacuous)" % prop)
